@@ -283,3 +283,24 @@ func Convert[A, B any](from *Group[A], to *Group[B], p Pt[A]) Pt[B] {
 		to.F.FromBig(from.F.ToBig(p.Z)),
 	}
 }
+
+// EqualProj is Equal without inversions: cross-multiplied projective comparison
+// of the two members of the Banderwagon class. Both points must have Z != 0.
+func (g *Group[E]) EqualProj(p, q Pt[E]) bool {
+	f := g.F
+	if f.IsZero(p.Z) || f.IsZero(q.Z) {
+		return false
+	}
+	x1, x2 := f.Mul(p.X, q.Z), f.Mul(q.X, p.Z)
+	y1, y2 := f.Mul(p.Y, q.Z), f.Mul(q.Y, p.Z)
+	if f.Equal(x1, x2) && f.Equal(y1, y2) {
+		return true
+	}
+	return f.Equal(x1, f.Neg(x2)) && f.Equal(y1, f.Neg(y2))
+}
+
+// YFromX exposes the larger root y for x (nil when no curve point has this x). x must be < p.
+func YFromX(x *big.Int) *big.Int { return yFromX(x) }
+
+// SubgroupOK exposes the Banderwagon subgroup test on x: 1 - a*x^2 is a non-zero square.
+func SubgroupOK(x *big.Int) bool { return subgroupOK(x) }
